@@ -15,18 +15,18 @@ COMMON_NOTE = ("Trusted: Lean 4.33 kernel; axioms propext, Classical.choice, Quo
 
 FP_TEXT = {
  'C01': 'In floating point: roundtrip_fp (the same identity for every model of floating-point arithmetic, all profiles, every 8-bit colour).',
- 'C02': 'In floating point: lab/luv/xyy_requant_fp (exact re-quantisation through CIELAB, CIELUV, xyY in every model), round-trip bounds.',
+ 'C02': 'In floating point: exact re-quantisation in every model through CIELAB, CIELUV, xyY, LCh(ab), LCh(uv), HCL, sRGB, Rec.709, Rec.2020 (no side condition), with round-trip bounds between 1.2e-7 and 3.1e-6; Adobe RGB round trip 3.07e-4.',
  'C03': 'In floating point: cmyk_roundtrip_fp (exact), yuv/ycbcr/hsl/hsv/hwb_roundtrip_fp with the same unit bounds as over the reals.',
  'C04': 'In floating point: Props/C04_fp.lean (NaN from rounding residues: every forward path, reverse function and round trip finite in every model) and Props/C04_fp_overflow*.lean (the same with overflow beyond 2^1023 modelled).',
  'C05': 'In floating point: forward_fp (XYZ within 1e-12 of the real model, 3e-7 of the specification), white/black.',
- 'C06': 'In floating point: forward bounds for CIELAB, CIELUV, Hunter Lab, xyY and reverse bounds on arbitrary in-range inputs in every model.',
+ 'C06': 'In floating point: the forward clause for every 8-bit colour against the CIE formulae with no side condition (Lab 5e-5/4e-4/2e-4, Luv 4e-5/6e-4, Hunter 1e-9, xyY 1e-15), the black clause, and reverse bounds on arbitrary in-range inputs in every model.',
  'C07': 'In floating point: OkLab via XYZ within 8.1e-10 of the real model for every colour; reverse on arbitrary in-range inputs.',
  'C08': 'In floating point: forward within the property tolerances for sRGB, Adobe RGB, Rec.709, Rec.2020 (partial constant), Rec.2100; reverse curves and round trips.',
  'C09': 'In floating point: forward formulas within 1e-10, hue determined except at exact half-degree ties (hue_tiefree_fp, hue_tie_fp).',
  'C10': 'In floating point: real-valued results within 1e-12, bytes are the quantisation of the exact sum perturbed by <= 1e-12.',
  'C11': 'In floating point: exact statements (saturation/hue 0, C=M=Y=0, white/black) and tolerance statements for greys in every model; Cb, Cr in {127,128} (128 is not provable for every rounding).',
  'C12': 'In floating point: step_fp (strict increase of X, Y, Z and of the four lightnesses, weak clauses by monotonicity of rounding) in every model.',
- 'C13': 'In floating point: ranges without slack for the hexcone percentages and CMYK, YUV/YCbCr/XYZ/grayscale ranges.',
+ 'C13': 'In floating point: ranges without slack for the hexcone percentages and CMYK, chroma >= 0 and polar hue ranges exactly, YUV/YCbCr/XYZ/grayscale, CIE/Hunter/OkLab lightness, encoded channels and ANSI ranges.',
  'C14': 'In floating point: chroma within 6e-16 relative, lightness copied exactly, hue within 1e-12 away from the wrap point, reverse within 1.1e-14*C.',
  'C17': 'In floating point: from_rgb_eq_fp (the encoder in every model EQUALS the real model for every colour: no tie exists).',
  'C18': 'In floating point: rejection, closed form with floor(rnd(1/f))+1 entries, entries within 1e-12 of the exact positions, exact monotonicity.',
